@@ -43,7 +43,8 @@
    ((s)->buf_len == 0 ==> (s)->blocks_compressed == 0))
 
 #define H_T(h) ((h)->chunk.chunk_counter)
-/* hasher: the documented domain is < 2^64 input bytes, i.e. chunk_counter < 2^54.
+/* hasher: the documented domain is < 2^64 input bytes, i.e. chunk_counter < 2^54 and
+ * 1024*chunk_counter + chunk_state_len <= 2^64 - 1 (second line of the macro).
  * Stack shape (lazy merging):
  *   bytes pending in the chunk state   ==> fully merged: cv_stack_len == popcnt(t)
  *   none pending, t == 0               ==> empty stack
@@ -52,6 +53,7 @@
  *  is what keeps `cv_stack_len - 2` in blake3_hasher_finalize_seek from wrapping.) */
 #define HASHER_WF(h)                                                                     \
   (CS_WF(&(h)->chunk) && H_T(h) < ((uint64_t)1 << 54) && (h)->cv_stack_len <= 55 &&      \
+   (H_T(h) < ((uint64_t)1 << 54) - 1 || CS_LEN(&(h)->chunk) <= 1023) &&                  \
    (CS_LEN(&(h)->chunk) > 0                                                              \
         ? (size_t)(h)->cv_stack_len == POPCNT(H_T(h))                                    \
         : (H_T(h) == 0 ? (h)->cv_stack_len == 0                                          \
